@@ -38,7 +38,12 @@ struct Frame {
     arrived: u64,
     respond_at: u64,
     out: Out,
+    /// Row offset asked for (0 = first page).
+    page: u64,
 }
+
+/// Marker flag: the SELECT returns 3 rows; read through the paging iterator with page size 1.
+const F_MULTI: u64 = 2;
 
 struct C13Script {
     interval: u64,
@@ -47,6 +52,13 @@ struct C13Script {
 }
 
 impl Script for C13Script {
+    fn rows_for(&mut self, _w: &mut World, rq: &ReqInfo, stmt: &crate::cluster::StmtDef) -> Vec<Vec<crate::wire::Cell>> {
+        let rows = crate::cluster::default_rows(stmt, rq.marker);
+        if rq.marker.map(|m| m & F_MULTI != 0).unwrap_or(false) {
+            return vec![rows[0].clone(), rows[0].clone(), rows[0].clone()];
+        }
+        rows
+    }
     fn on_user_request(&mut self, w: &mut World, rq: &ReqInfo, req: &Request) -> Reply {
         if matches!(req, Request::Prepare { .. }) {
             return Reply::Default;
@@ -65,11 +77,20 @@ impl Script for C13Script {
             _ => Out::Rst,
         };
         let now = w.now();
+        let page = match req {
+            Request::Query { params, .. } | Request::Execute { params, .. } => params
+                .paging_state
+                .as_ref()
+                .and_then(|ps| ps.get(..8).map(|b| u64::from_be_bytes(b.try_into().unwrap())))
+                .unwrap_or(0),
+            _ => 0,
+        };
         self.frames.entry(m).or_default().push(Frame {
             node: rq.node,
             arrived: now,
             respond_at: now + delay,
             out,
+            page,
         });
         if delay > 0 {
             w.fault(Fault::Delay);
@@ -218,9 +239,17 @@ async fn main(plan: Plan) -> Outcome {
         let t0 = world::now_ns();
         // The same execution core is reached through several APIs. The outcome is
         // normalised to Ok(rows ok?) / Err(error class).
-        let mut api = tape::weighted("c13:api", &[3, 2, 2, 1]);
+        let mut api = tape::weighted("c13:api", &[3, 2, 2, 1, 2]);
         if (api == 2 && sel.is_none()) || (api == 3 && ins.is_none()) {
             api = 0;
+        }
+        // api 4: three pages of one row each through the paging iterator; every page
+        // request is speculated separately (the previous page's coordinator goes first).
+        let m = if api == 4 { m | F_MULTI } else { m };
+        let mut st = Statement::new(client::q_marker(m));
+        st.set_is_idempotent(idempotent);
+        if api == 4 {
+            st.set_page_size(1);
         }
         let res: Result<Result<Result<(), String>, (&'static str, String)>, tokio::time::error::Elapsed> =
             tokio::time::timeout(Duration::from_secs(120), async {
@@ -235,6 +264,46 @@ async fn main(plan: Plan) -> Outcome {
                         match session.execute_unpaged(&p, (i as i64, m as i64)).await {
                             Ok(qr) => Ok(client::check_marker_rows(qr, m)),
                             Err(e) => Err((classify(&e), client::short_err(&e))),
+                        }
+                    }
+                    4 => {
+                        use futures::StreamExt;
+                        use scylla::errors::{NextPageError, PagerExecutionError};
+                        match session.query_iter(st, ()).await {
+                            Ok(pager) => match pager.rows_stream::<(i64,)>() {
+                                Ok(mut rs) => {
+                                    let mut n = 0;
+                                    let mut res = Ok(Ok(()));
+                                    while let Some(r) = rs.next().await {
+                                        match r {
+                                            Ok((v,)) if v == m as i64 => n += 1,
+                                            Ok(other) => {
+                                                res = Ok(Err(format!("paged request marker {m} yielded {other:?}")));
+                                                break;
+                                            }
+                                            Err(scylla::errors::NextRowError::NextPageError(NextPageError::RequestFailure(e))) => {
+                                                let e = e.into_execution_error();
+                                                res = Err((classify(&e), client::short_err(&e)));
+                                                break;
+                                            }
+                                            Err(e) => {
+                                                res = Err(("other", format!("{e}").chars().take(100).collect()));
+                                                break;
+                                            }
+                                        }
+                                    }
+                                    if n != 3 && matches!(res, Ok(Ok(()))) {
+                                        res = Ok(Err(format!("paged request marker {m} yielded {n} rows instead of 3")));
+                                    }
+                                    res
+                                }
+                                Err(e) => Ok(Err(format!("type check: {e}"))),
+                            },
+                            Err(PagerExecutionError::NextPageError(NextPageError::RequestFailure(e))) => {
+                                let e = e.into_execution_error();
+                                Err((classify(&e), client::short_err(&e)))
+                            }
+                            Err(e) => Err(("other", format!("{e}").chars().take(100).collect())),
                         }
                     }
                     3 => {
@@ -309,49 +378,68 @@ async fn main(plan: Plan) -> Outcome {
         if frames.len() > 1 {
             spec_started += frames.len() as u64 - 1;
         }
-        // (a) not idempotent: never in flight on two nodes at once.
-        if !idempotent {
-            for a in 0..frames.len() {
-                for b in a + 1..frames.len() {
-                    let (x, y) = (&frames[a], &frames[b]);
-                    if x.node != y.node && y.arrived < x.respond_at && x.arrived < y.respond_at {
+        // Page requests of the multi-page iterator are speculated one by one: the
+        // structural clauses are judged per page request.
+        let groups: Vec<(u64, Vec<Frame>)> = if api == 4 {
+            let mut g: BTreeMap<u64, Vec<Frame>> = BTreeMap::new();
+            for f in &frames {
+                g.entry(f.page).or_default().push(f.clone());
+            }
+            g.into_iter().map(|(_, v)| (v.iter().map(|f| f.arrived).min().unwrap_or(t0), v)).collect()
+        } else {
+            vec![(t0, frames.clone())]
+        };
+        for (g0, frames) in &groups {
+            let g0 = *g0;
+            // (a) not idempotent: never in flight on two nodes at once.
+            if !idempotent {
+                for a in 0..frames.len() {
+                    for b in a + 1..frames.len() {
+                        let (x, y) = (&frames[a], &frames[b]);
+                        if x.node != y.node && y.arrived < x.respond_at && x.arrived < y.respond_at {
+                            out.violation(
+                                "c13.nonidempotent_in_flight_twice",
+                                format!("attempts {a} and {b} overlap on nodes {} and {}: {ctx}", x.node, y.node),
+                            );
+                        }
+                    }
+                }
+            }
+            if plan.fallthrough {
+                // One attempt per fiber: frames are fibers.
+                // (b) at most 1 + max executions, the k-th not before k*d.
+                let allowed = if idempotent { 1 + plan.max_spec } else { 1 };
+                if frames.len() > allowed {
+                    out.violation(
+                        "c13.too_many_executions",
+                        format!("{} executions started (page offset {}), at most {allowed} allowed: {ctx}", frames.len(), frames[0].page),
+                    );
+                }
+                for (k, f) in frames.iter().enumerate() {
+                    // For a later page the reference instant is the arrival of its first
+                    // execution (one latency after the fibers' common start).
+                    let slack = if api == 4 { 4 * MS } else { MS };
+                    if k >= 1 && f.arrived + slack < g0 + k as u64 * plan.interval {
                         out.violation(
-                            "c13.nonidempotent_in_flight_twice",
-                            format!("attempts {a} and {b} overlap on nodes {} and {}: {ctx}", x.node, y.node),
+                            "c13.started_too_early",
+                            format!("execution {k} reached its node {} ms after the (page) request started, before {k} x interval: {ctx}", (f.arrived - g0) / MS),
                         );
+                    }
+                }
+                // (c) no two executions use the same plan target.
+                for a in 0..frames.len() {
+                    for b in a + 1..frames.len() {
+                        if frames[a].node == frames[b].node {
+                            out.violation(
+                                "c13.same_target_twice",
+                                format!("executions {a} and {b} (page offset {}) both went to node {}: {ctx}", frames[a].page, frames[a].node),
+                            );
+                        }
                     }
                 }
             }
         }
-        if plan.fallthrough {
-            // One attempt per fiber: frames are fibers.
-            // (b) at most 1 + max executions, the k-th not before k*d.
-            let allowed = if idempotent { 1 + plan.max_spec } else { 1 };
-            if frames.len() > allowed {
-                out.violation(
-                    "c13.too_many_executions",
-                    format!("{} executions started, at most {allowed} allowed: {ctx}", frames.len()),
-                );
-            }
-            for (k, f) in frames.iter().enumerate() {
-                if k >= 1 && f.arrived + MS < t0 + k as u64 * plan.interval {
-                    out.violation(
-                        "c13.started_too_early",
-                        format!("execution {k} reached its node {} ms after the call started, before {k} x interval: {ctx}", (f.arrived - t0) / MS),
-                    );
-                }
-            }
-            // (c) no two executions use the same plan target.
-            for a in 0..frames.len() {
-                for b in a + 1..frames.len() {
-                    if frames[a].node == frames[b].node {
-                        out.violation(
-                            "c13.same_target_twice",
-                            format!("executions {a} and {b} both went to node {}: {ctx}", frames[a].node),
-                        );
-                    }
-                }
-            }
+        if plan.fallthrough && api != 4 {
             // (d) first real answer wins. Margin: one-way latency (<= 1 ms) + timer granularity.
             let margin = 4 * MS;
             let real: Vec<&Frame> = frames
